@@ -4,10 +4,10 @@
   SEQUENCE (extension bit, OPTIONAL bitmap, absent optionals), CHOICE, SEQUENCE OF, pointers, open types, leaves.
 
   Hypotheses the proof forces (each one is a statement about the codec; see `Props/C04.lean` for the discussion):
-  * `conf`   : INTEGER within lb..ub, or above ub (below 2^63) when the type is extensible; strings and BIT STRINGs shorter than 16384 (no fragmentation);
+  * `conf`   : INTEGER within lb..ub, or above ub (below 2^63) when the type is extensible; strings and BIT STRINGs of any length (fragmented from 16K on);
                BIT STRING octets canonical (unused bits zero, exactly ⌈n/8⌉ octets); a CHOICE value has `Present = p`, the
                other alternatives nil, and the selected alternative is one that never encodes to zero bits (`neTy`);
-               an open-type value encodes to fewer than 16384 octets.
+               an open-type content may have any length.
   * `rtOK`   : see `AperRTCompDefs.lean`.
 -/
 import Stgutg.Proofs.AperRTCompChoice
@@ -217,27 +217,25 @@ theorem RT_field (env : Env) (hwf : rtOK env = true) :
     | bits =>
       cases v <;> simp [encField, err] at henc
       rename_i bytes len
-      simp only [conf, Bool.and_eq_true, decide_eq_true_eq] at hc
+      simp only [conf, decide_eq_true_eq] at hc
       simp only [paramsOKx] at hp
       obtain ⟨hok, hve⟩ := sizedOK_spec params hp
       exact RT'_decField_leaf env fuel .bits params bits pos _ (Or.inr (Or.inr (Or.inl rfl)))
-        (RT_leaf_bits pos bytes len params bits hok hc.1 hve hc.2 henc)
+        (RT_leaf_bits_any pos bytes len params bits hok (sizedOK_frag params hp) hve hc henc)
     | octs =>
       cases v <;> simp [encField, err] at henc
       rename_i b
-      simp only [conf, decide_eq_true_eq] at hc
       simp only [paramsOKx] at hp
       obtain ⟨hok, hve⟩ := sizedOK_spec params hp
       exact RT'_decField_leaf env fuel .octs params bits pos _ (Or.inr (Or.inr (Or.inr (Or.inl rfl))))
-        (RT_leaf_octs pos b params bits hok hc hve henc)
+        (RT_leaf_octs_any pos b params bits hok (sizedOK_frag params hp) hve henc)
     | str =>
       cases v <;> simp [encField, err] at henc
       rename_i b
-      simp only [conf, decide_eq_true_eq] at hc
       simp only [paramsOKx] at hp
       obtain ⟨hok, hve⟩ := sizedOK_spec params hp
       exact RT'_decField_leaf env fuel .str params bits pos _ (Or.inr (Or.inr (Or.inr (Or.inr (Or.inl rfl)))))
-        (RT_leaf_str pos b params bits hok hc hve henc)
+        (RT_leaf_str_any pos b params bits hok (sizedOK_frag params hp) hve henc)
     | bool =>
       cases v <;> simp [encField, err] at henc
       rename_i b
@@ -360,17 +358,10 @@ theorem RT_field (env : Env) (hwf : rtOK env = true) :
                   exact hp0.symm
                 subst hpp
                 rw [hF, hV] at hc3
-                simp only [Bool.and_eq_true, Bool.or_eq_true, Bool.not_eq_true'] at hc3
-                obtain ⟨⟨hcv, hne⟩, hol⟩ := hc3
+                simp only [Bool.and_eq_true] at hc3
+                obtain ⟨hcv, hne⟩ := hc3
                 have hane := neTy_sound env fd.ty fd.params hne fuel pos' alt a ha
-                refine ⟨hane, ?_, ?_⟩
-                · exact ih pos' fd.ty fd.params alt a (haltptr _ fd (by omega) hF).2 hcv ha
-                · intro hot hpos
-                  subst hpos
-                  rcases hol with hol | hol
-                  · rw [hot] at hol; cases hol
-                  · rw [ha] at hol
-                    simpa using hol
+                exact ⟨hane, ih pos' fd.ty fd.params alt a (haltptr _ fd (by omega) hF).2 hcv ha⟩
               · intro p' alt hp0 hpos hV
                 have hpp : p' = p := by
                   simp only [List.getElem?_cons_zero, Option.some.injEq, Val.int.injEq] at hp0
